@@ -13,6 +13,7 @@ type Input struct {
 	W    int    // int width
 	N    int    // bytes length
 	Seq  int    // harness call sequence number (tape position)
+	Val  uint64 // Kind "const": the concrete value chosen on this path
 }
 
 type Event struct {
@@ -40,6 +41,7 @@ type State struct {
 	clockLast   *Term
 	clockFrozen bool
 	choiceSeq   int
+	hseq        int // number of harness tape entries consumed
 }
 
 type pendingGo struct {
@@ -49,7 +51,7 @@ type pendingGo struct {
 
 func (st *State) clone() *State {
 	n := &State{root: st.root, cur: st.cur, steps: st.steps, depthID: st.depthID + 1, clockN: st.clockN,
-		locks: st.locks, clockLast: st.clockLast, clockFrozen: st.clockFrozen, choiceSeq: st.choiceSeq}
+		locks: st.locks, clockLast: st.clockLast, clockFrozen: st.clockFrozen, choiceSeq: st.choiceSeq, hseq: st.hseq}
 	n.heap = make(map[int]*Object, len(st.heap)+8)
 	for k, v := range st.heap {
 		n.heap[k] = v
